@@ -23,11 +23,16 @@ CLAIMED = {
        "run on the operator table regenerated from parser/src/lib.rs groups each as the 14-level table regenerated from "
        "docs/operators.md prescribes; table = doc table level by level with associativity; grammar alternatives are all in the "
        "table with the right affix; ordered choices never split a multi-character operator; Rule->BinOperator map total, injective, "
-       "display = grammar literal. Tied by running the real PRATT_PARSER (tree-building closures) against the model and an "
+       "display = grammar literal. UNBOUNDED (Thm/C14Gen): for an operand / binary-operator chain of ANY length, whatever the Pratt loop answers reads "
+       "back as the chain, and at EVERY node `l o r` of the tree an operator at the root of `l` binds tighter than `o` or equally tight on a "
+       "left-associative level, one at the root of `r` tighter or equally tight on a right-associative level (parse_chain_flatten, "
+       "parse_chain_grouping: induction over the loop with the invariants `the next operator does not bind tighter than rbp` and `the root binds "
+       "tighter than rbp`, for any table whose levels have one associativity - table_uniform discharges that for the regenerated table). "
+       "Tied by running the real PRATT_PARSER (tree-building closures) against the model and an "
        "independent doc-table parser on pairs, triples and random operator strings, and by values of unparenthesised expressions.",
   note="Lean kernel; translator readers for the .op(...) chain, the pest grammar, the Markdown table; hand model of pest's "
        "pratt_parser.rs pinned by version + SHA-256 (a dependency bump breaks the tie); the triple theorem takes ~2 min of kernel evaluation when a table changes (cached otherwise).",
-  technique="Lean 4 proof (decide over translated operator/doc tables) + differential correspondence", ref="DESIGN.md §6 C14"),
+  technique="Lean 4 proof (decide over translated operator/doc tables; induction over the Pratt loop for chains of any length) + differential correspondence", ref="DESIGN.md §6 C14"),
  "C09": dict(
   text="Lean 4 theorems for every length, index and optional (start, stop, step) in Int: s[i] succeeds iff -n <= i < n and then "
        "selects position i (mod n), otherwise IndexOutOfBounds; the slyce index algorithm as driven by Slicing::exec only ever "
